@@ -1,4 +1,5 @@
 import ExprModel.Syntax.Parser
+import ExprModel.Syntax.Printer
 import ExprModel.Gen.ParserTables
 /- driver handlers for the parser model (C11; reused by C13/C04) -/
 namespace ExprModel.Drv
@@ -38,11 +39,11 @@ def goParseInt (s : String) (base0 : Bool) : Option Int :=
 /-- the number branch of parsePrimaryExpression; floats come from the request's oracle table -/
 def numOf (floats : List (String × Option UInt64)) (v : String) : Option NumVal :=
   let s := String.ofList (v.toList.filter (· != '_'))
-  if s.toList.any (fun c => c == '.' || c == 'e' || c == 'E') then
+  if s.toList.any (fun c => c == 'x' || c == 'X') then (goParseInt s true).map .int
+  else if s.toList.any (fun c => c == '.' || c == 'e' || c == 'E') then
     match floats.lookup v with
     | some (some b) => some (.float b)
     | _ => none
-  else if s.toList.contains 'x' then (goParseInt s true).map .int
   else (goParseInt s false).map .int
 
 def floatEntry : Sexp → Option (String × Option UInt64)
@@ -64,7 +65,20 @@ def handleParse : List Sexp → Sexp
     | _, _, _ => .list [.atom "bad-request"]
   | _ => .list [.atom "bad-request"]
 
+/-- `(pprint <node>)` → `(toks (Kind hexvalue)…)`: the reference printer of the round-trip theorem with the
+    minimal parenthesis choice; integers in decimal, floats as `f<bits>` (the harness compares bits) -/
+def handlePrint : List Sexp → Sexp
+  | [.atom "pprint", n] =>
+    match Node.ofSexp n with
+    | some t =>
+      let cfg : Cfg := { tb := Gen.parserTables, num := fun _ => none }
+      let sh : NumShow := { showInt := toString, showFloat := fun b => "f" ++ toString b.toNat }
+      let ts := print cfg sh (fun _ => 0) t
+      .list (.atom "toks" :: ts.map fun t => .list [.atom t.kind.name, Sexp.str t.value])
+    | none => .list [.atom "bad-request"]
+  | _ => .list [.atom "bad-request"]
+
 /-- stage table exported to Driver.lean -/
-def parseHandlers : List (String × (List Sexp → Sexp)) := [("parse", handleParse)]
+def parseHandlers : List (String × (List Sexp → Sexp)) := [("parse", handleParse), ("pprint", handlePrint)]
 
 end ExprModel.Drv
